@@ -26,5 +26,9 @@ RULES = [
     ("C05.partition", lambda c, r: c09.rule_partition(c, r, "C05.partition")),
     ("C05.unique", lambda c, r: lfht.rule_unique(c, r, "C05.unique")),
     ("C05.bucketat", lambda c, r: lfht.rule_bucketat(c, r, "C05.bucketat")),
+    ("C05.addskel", lambda c, r: __import__("sa.rules.lfht2", fromlist=["x"]).rule_addskel(c, r, "C05.addskel")),
+    ("C05.entry", lambda c, r: __import__("sa.rules.lfht2", fromlist=["x"]).rule_entry(c, r, "C05.entry")),
+    ("C05.partition_thread", lambda c, r: __import__("sa.rules.lfht2", fromlist=["x"]).rule_partition_thread(c, r, "C05.partition_thread")),
+    ("C05.levels", lambda c, r: __import__("sa.rules.lfht2", fromlist=["x"]).rule_levels(c, r, "C05.levels")),
 ]
 FLOORS = {}
